@@ -270,7 +270,7 @@ APPENDS = {
  'C17': "Round 7: under -g, a metric of a class (cX.advancewidth, bb.right, bb.top) whose first members the font lacks is the metric of the first glyph the font has.",
  'C18': "Round 7: faults in the language table (undefined feature, undefined setting, value without a setting) are located, in the main file or in a file included inside the braces of a group, also after rule lines that start with the line-break item #.",
  'C19': "Round 7: scenarios of C09 (early warning with point functions, fork failure) count here too: nothing may be left in /tmp.",
- 'C20': "Round 7: composites of 3 to 12 components; components with a 2x2 matrix (quarter turns, shears, a mirror), which the Lean outline model now transforms as the format defines.",
+ 'C20': "Round 7: composites of 3 to 12 components; components with a 2x2 matrix (quarter turns, shears, a mirror), which the Lean outline model now transforms as the format defines; components placed by matching points.",
 }
 for _k, _t in APPENDS.items():
     CHECKS[_k]["note"] = (CHECKS[_k]["note"].rstrip() + " " + _t).strip()
